@@ -1,6 +1,8 @@
 package an
 
 import (
+	"crypto/sha256"
+	"encoding/hex"
 	"fmt"
 	"go/types"
 )
@@ -28,6 +30,12 @@ func debugDump(repo, fn string) int {
 		if _, ok := gl.Type().Underlying().(*types.Pointer).Elem().Underlying().(*types.Map); ok {
 			g.MapBits[gl] = 11
 		}
+	}
+	if fn == "digests" {
+		for _, gl := range g.ListOrder {
+			fmt.Printf("%s %d %s\n", gl.Name(), len(g.Lists[gl].Elems), listDigest(g.Lists[gl].Elems))
+		}
+		return 0
 	}
 	f := p.Root.Func(fn)
 	if f == nil {
@@ -73,4 +81,13 @@ func debugDump(repo, fn string) int {
 		}
 	}
 	return 0
+}
+
+func listDigest(words []string) string {
+	h := sha256.New()
+	for _, w := range words {
+		h.Write([]byte(w))
+		h.Write([]byte("\n"))
+	}
+	return hex.EncodeToString(h.Sum(nil))
 }
